@@ -335,6 +335,31 @@ theorem select_rebuild (sc : Script) {s : St} (h : SelC s) (hi : Inv none s) :
     ∀ c ∈ (selDispatch sc s).ctxList, c ∈ (selDispatch sc s).allset ∧ fdOf c ≤ (selDispatch sc s).nfds :=
   ⟨(selDispatch_c sc h hi).allsig, (selDispatch_c sc h hi).cover⟩
 
+/-! ### the defect repaired by fixes/C13-poll-ready-count.patch, as a negation witness -/
+
+/-- two pipes; while the loop sleeps: peer 0 closes, peer 1 writes 11 bytes and closes;
+the read callback of context 1 asks the loop to exit -/
+def countScript : Script :=
+  { onRead := fun c b a => if c = 1 ∧ b < 2 ∧ 2 ≤ a then [.exit] else [],
+    onClose := fun _ => [], onWake := fun _ => [],
+    onIdle := fun _ => [.pclose 0, .write 1 1, .write 1 10, .pclose 1],
+    nIdle := 1, rmode := fun _ => .all }
+
+/-- with the original `--n` accounting (`legacy = true`) the poll back-end leaves context 0 —
+whose stream has ended — unvisited and clears it, while select closes it: the back-ends
+disagree on its outcome. This is the input replayed on the implementation
+(corpus/C13/poll-double-decrement.ops). -/
+theorem legacy_poll_disagrees_with_select :
+    outcome (scenario .poll 16 true [.pipe, .pipe] [.add 0, .add 1] countScript 100) 0 = (0, .cleared) ∧
+    outcome (scenario .select 16 true [.pipe, .pipe] [.add 0, .add 1] countScript 100) 0 = (0, .closed) := by
+  decide
+
+/-- with the repaired accounting they agree on this script -/
+theorem fixed_poll_agrees_with_select_on_witness :
+    outcomes (scenario .poll 16 false [.pipe, .pipe] [.add 0, .add 1] countScript 100) =
+    outcomes (scenario .select 16 false [.pipe, .pipe] [.add 0, .add 1] countScript 100) := by
+  decide
+
 /-! ### non-vacuity: a concrete script on which all the events above occur -/
 
 /-- two pipes and a socket pair; context 2 is added from the close callback of context 0;
